@@ -1,4 +1,4 @@
 From Coq Require Import Extraction ExtrOcamlBasic.
 From CAres.Core Require Import EventLoop.
 Extraction Language OCaml.
-Extraction "../ocaml/gen/EventLoopModel.ml" trace_accepts acc_run estep erun einit.
+Extraction "../ocaml/gen/EventLoopModel.ml" trace_accepts trace_conversion_ok ms_of_hint wait_ms_ok acc_run estep erun einit.
